@@ -32,11 +32,25 @@ def cases(ctx, n):
                 f = gen.formula(rng, atoms, rng.randint(1, 3), UN, BIN, pool, ['true', 'false'], nfold=0.35, leaf=0.2)
             fs.append((rng.choice(['initial', 'always', 'always', 'dynamic', 'final']), f))
         out.append(fs)
+    # fixed family: pending chains of next operators reached late (through past operators) and again at later steps / through a second parent
+    fam = gen.revisit_family()
+    for f in fam:
+        out.append([('always', f)])
+        sub = f[-1] if f[0] not in ('or', 'and') else f[1][-1]
+        out.append([('always', f), ('dynamic', sub)])
+    # fixed family: an atom and its classical complement below the same operators, in both orders
+    a, na, b = ('atom', 'a'), ('atom', '-a'), ('atom', 'b')
+    for w in [lambda x: x, lambda x: ('not', x), lambda x: ('prev', None, x), lambda x: ('next', None, x), lambda x: ('wnext', 2, x), lambda x: ('since', None, x), lambda x: ('until', b, x),
+              lambda x: ('and', x, b), lambda x: ('impr', x, b), lambda x: ('initially', x), lambda x: ('release', x, b), lambda x: ('seqprev', b, x)]:
+        out.append([('always', w(a)), ('always', w(na))])
+        out.append([('always', w(na)), ('always', w(a))])
+    out.append([('always', ('or', ('prev', None, a), ('prev', None, na)))])
     return out
 
 
 def program(fs):
-    txt = '#program always.\n{ a; b }.\n'
+    neg = any(g == ('atom', '-a') for _, f in fs for g in gen.subformulas(f))
+    txt = '#program always.\n{ a; b%s }.\n' % ('; -a' if neg else '')
     for i, (part, f) in enumerate(fs):
         txt += '#program %s.\n{ m(%d) }.\n:- &tel { %s }, m(%d).\n' % (part, i, lang.fml_txt(f), i)
     return txt
@@ -141,7 +155,7 @@ def compare(ctx, fss, H):
     for ci, (fs, r) in enumerate(zip(fss, impl)):
         if r.get('status') != 'ok':
             continue
-        A = lang.Atoms(['a', 'b'])
+        A = lang.Atoms(['a', 'b', '-a'])
         steps_tok = []
         ok = True
         for t, st in enumerate(r['steps']):
@@ -176,7 +190,7 @@ def compare(ctx, fss, H):
                     break
             if rec['status'] == 'agree':
                 isteps, ikinds = impl_items(r['steps'])
-                msteps, mkinds = model_items(ans[ci], ['a', 'b'])
+                msteps, mkinds = model_items(ans[ci], ['a', 'b', '-a'])
                 ic, iren = canon_stream([x for s_ in isteps for x in s_])
                 mc, mren = canon_stream([x for s_ in msteps for x in s_])
                 rec['events'] = len(mc)
